@@ -12,6 +12,14 @@ Spec on impl (C): exactly-once dispatch per sent id (`onceOk`), field preservati
 (`sameEvent`), self-delimiting packets (`wireOk`) - evaluated by the Lean driver on the
 implementation's observations; answer routing, firewall silence, loop liveness and
 "critical attributes as locally constructed" are plain comparisons made here.
+
+Firewalls: the verdict is judged per event, for predicates on name / channels and for rules on
+args, kwargs, an attribute of the event and a call counter (see "firewall predicates" below):
+a rejected event is never written (send) / never dispatched and answered with the empty result
+(receive); an allowed one is written / dispatched exactly once - also when events of one
+(name, channels) with different verdicts follow each other on one connection, in any order.
+The model evaluates the same rules (CV.Drv.Rule); with a driver built before they existed the
+sessions that use rules are judged by the oracle only.
 """
 import ast
 import inspect
@@ -217,6 +225,174 @@ def make_app_classes():
     return App
 
 
+# ---------------------------------------------------------------------------------------
+# firewall predicates
+#
+# a firewall spec is [blocked names, blocked channel strings] or [names, chans, rules]; every rule must allow:
+#   {'k': 'le', 'sel': S, 'n': N}      allowed iff the selected value is a natural number <= N
+#   {'k': 'eq', 'sel': S, 'v': STR}    allowed iff the selected value is the string STR
+#   {'k': 'ni', 'sel': S, 'ns': [..]}  rejected iff the selected value is a natural number in ns
+#   {'k': 'nth', 'n': N, 'phase': F}   stateful: of the events shown to this firewall, number F+1, F+1+N, F+1+2N ...
+#                                      are rejected (a rate limit); asking twice about the same event object
+#                                      does not count twice
+# S = ['a', i] (positional argument i) | ['k', key] (keyword argument) | ['t', name] (attribute of the event).
+# The Lean driver evaluates le / eq / ni itself (CV.Drv.Fw.ok); `nth` is turned into the `ni` rule it amounts to
+# on the session at hand (`resolve_fw`: every event of such a session carries a unique number as args[0] and a
+# connection is FIFO, so "the k-th event shown to the firewall" is a function of the event).
+# ---------------------------------------------------------------------------------------
+
+_MISSING = object()
+
+
+def nat_of(x):
+    """the natural number a JSON value is, or None (same rule as the `nat` field of the driver's number token)"""
+    if isinstance(x, bool):
+        return None
+    if isinstance(x, int):
+        return x if x >= 0 else None
+    if isinstance(x, float) and math.isfinite(x) and x >= 0 and x == int(x):
+        return int(x)
+    return None
+
+
+def fw_parts(spec):
+    names, chans = spec[0], spec[1]
+    rules = spec[2] if len(spec) > 2 else []
+    return list(names), list(chans), list(rules)
+
+
+def sel_get(event, sel):
+    kind, key = sel
+    if kind == 'a':
+        return event.args[key] if 0 <= key < len(event.args) else _MISSING
+    if kind == 'k':
+        return event.kwargs.get(key, _MISSING)
+    return getattr(event, key, _MISSING)
+
+
+def rule_ok(rule, event):
+    """pure rules only"""
+    v = sel_get(event, rule['sel'])
+    k = rule['k']
+    if k == 'le':
+        n = nat_of(v)
+        return n is not None and n <= rule['n']
+    if k == 'eq':
+        return isinstance(v, str) and v == rule['v']
+    if k == 'ni':
+        n = nat_of(v)
+        return not (n is not None and n in rule['ns'])
+    raise ValueError(k)
+
+
+def base_ok(names, chans, event):
+    return event.name not in names and not any(isinstance(c, str) and c in chans for c in event.channels)
+
+
+def make_pred(spec):
+    """the real firewall callable; every part is evaluated at every call (no short circuit), so that the
+    counter of an `nth` rule counts every event the firewall is shown"""
+    names, chans, rules = fw_parts(spec)
+    shown = []          # event objects (kept alive: identity is the key)
+    verdicts = []
+
+    def pred(event, sock):
+        for e, v in zip(shown, verdicts):
+            if e is event:
+                return v
+        k = len(shown)
+        oks = [base_ok(names, chans, event)]
+        for r in rules:
+            if r['k'] == 'nth':
+                oks.append(k % r['n'] != r['phase'])
+            else:
+                oks.append(rule_ok(r, event))
+        v = all(oks)
+        shown.append(event)
+        verdicts.append(v)
+        return v
+    pred.shown = shown
+    return pred
+
+
+def pure_pred(fwp, p, side):
+    """verdict of the (resolved) firewall of protocol p as a function of the event; `why` names the part that rejects"""
+    f = fwp.get(str(p))
+    if not f:
+        return lambda event: (True, None)
+    names, chans, rules = fw_parts(f[side])
+
+    def pred(event):
+        if not base_ok(names, chans, event):
+            return False, 'name-or-channel'
+        for r in rules:
+            if not rule_ok(r, event):
+                return False, r.get('dep') or {'a': 'args', 'k': 'kwargs', 't': 'attribute'}[r['sel'][0]]
+        return True, None
+    return pred
+
+
+def fw_has_rules(fw):
+    return any(fw_parts(f[side])[2] for f in fw.values() for side in ('send', 'recv'))
+
+
+def resolve_fw(case):
+    """the firewalls of a session as pure predicates: `nth` rules become the `ni` rule they amount to"""
+    fw = case.get('fw', {}) or {}
+    out = {k: {side: list(fw_parts(f[side])) for side in ('send', 'recv')} for k, f in fw.items() if f}
+    if not any(r['k'] == 'nth' for f in out.values() for side in f for r in f[side][2]):
+        return out
+    if case.get('hostile'):
+        raise Unsupported('nth firewall in a hostile session')
+
+    def seq(spec):
+        n = nat_of(spec['args'][0]) if spec['args'] else None
+        if n is None or {'cls', '_name', 'value'} & set(spec['kwargs']):
+            raise Unsupported('nth firewall needs numbered plain events')
+        return n
+
+    def resolved(rules, events):
+        res = []
+        for r in rules:
+            if r['k'] == 'nth':
+                seqs = [seq(e) for e in events]
+                if len(set(seqs)) != len(seqs):
+                    raise Unsupported('nth firewall needs distinct numbers')
+                res.append({'k': 'ni', 'sel': ['a', 0], 'dep': 'call-counter',
+                            'ns': [x for k, x in enumerate(seqs) if k % r['n'] == r['phase']]})
+            else:
+                res.append(r)
+        return res
+    # send side first: the k-th event handed to send(); what passes arrives in that order at the peer
+    for p in range(4):
+        f = out.get(str(p))
+        if f:
+            f['send'][2] = resolved(f['send'][2], [st[2] for st in case['steps'] if st[0] == 'send' and st[1] == p])
+    for p in range(4):
+        q = PEER[p]
+        f = out.get(str(q))
+        if f and any(r['k'] == 'nth' for r in f['recv'][2]):
+            sp = pure_pred(out, p, 'send')
+            arriving = [st[2] for st in case['steps'] if st[0] == 'send' and st[1] == p and sp(make_event(st[2]))[0]]
+            f['recv'][2] = resolved(f['recv'][2], arriving)
+    return out
+
+
+def sel_token(sel):
+    kind, key = sel
+    return f'a{key}' if kind == 'a' else kind + sx(key)
+
+
+def rule_token(r):
+    if r['k'] == 'le':
+        return f"le:{sel_token(r['sel'])}:{r['n']}"
+    if r['k'] == 'eq':
+        return f"eq:{sel_token(r['sel'])}:{sx(r['v'])}"
+    if r['k'] == 'ni':
+        return f"ni:{sel_token(r['sel'])}:{','.join(map(str, r['ns'])) or '-'}"
+    raise ValueError(r['k'])
+
+
 class World:
     """manager 0 hosts P0, P1 (server mode, socks 'S0','S1'); P2 and P3 are clients on their own managers"""
 
@@ -246,11 +422,8 @@ class World:
 
     @staticmethod
     def _pred(spec):
-        names, chans = spec
-
-        def pred(event, sock):
-            return event.name not in names and not any(isinstance(c, str) and c in chans for c in event.channels)
-        return pred
+        """the callable handed to Protocol(...): one instance per protocol and direction (it may carry state)"""
+        return make_pred(spec)
 
     def drain_all(self):
         """flush every manager until quiet; an exception out of flush() is what ends Manager.run()"""
@@ -391,20 +564,35 @@ def handler_value(evobs):
     return ['R', evobs['name'], list(evobs['args']), dict(evobs['kwargs'])]
 
 
-def fw_tokens(fw, p):
-    f = fw.get(str(p))
+def fw_tokens(fwp, p, rich):
+    f = fwp.get(str(p))
     if not f:
         return '| | |'
-    (sn, sc), (rn, rc) = f['send'], f['recv']
-    return ' | '.join(' '.join(sx(x) for x in part) for part in (sn, sc, rn, rc))
+    (sn, sc, sr), (rn, rc, rr) = fw_parts(f['send']), fw_parts(f['recv'])
+    parts = [[sx(x) for x in part] for part in (sn, sc, rn, rc)]
+    if rich:
+        parts += [[rule_token(r) for r in sr], [rule_token(r) for r in rr]]
+    return ' | '.join(' '.join(part) for part in parts)
 
 
-def session_ops(ctx, case, excl):
-    """model op lines for a session; the results of B's handlers are computed here (abstract dispatch)"""
+def session_ops(ctx, fwp, excl, rich):
+    """preamble of a session: exclusion set, the four protocols with their (resolved) firewalls"""
     ops = ['excl ' + ' '.join(sx(n) for n in excl)]
     for p in range(4):
-        ops.append(f'new {p} {fw_tokens(case.get("fw", {}), p)}')
+        ops.append(f'new {p} {fw_tokens(fwp, p, rich)}')
     return ops
+
+
+def driver_has_rules(ctx):
+    """does the built driver know firewall rules (CV.Drv.Rule)?  An older driver answers bad-op; sessions whose
+    firewalls have rules are then judged by the spec-on-implementation oracle only"""
+    got = getattr(ctx, '_c19_fw_rules', None)
+    if got is None:
+        ans = ctx.driver.batch('node', [['new 0 | | | | le:a0:1 | ni:a0:-']])[0]
+        got = ans[0] == 'ok'
+        ctx._c19_fw_rules = got
+        ctx.extra['driver_evaluates_firewall_rules'] = got
+    return got
 
 
 def eval_session(ctx, cases):
@@ -469,8 +657,16 @@ def eval_one_session(ctx, case, excl):
         w, steps = run_session_impl(case)
     except Unsupported:
         raise
+    fwp = resolve_fw(case)                     # the firewalls as functions of the event (oracle and model)
+    has_rules = fw_has_rules(fwp)
+    # the driver evaluates the same predicates; one built before the rules existed cannot: oracle only then
+    model_on = (not has_rules) or driver_has_rules(ctx)
+
+    def disagree(c, detail):
+        if model_on:
+            ctx.disagree(c, detail)
     # ---- build model ops, replaying the byte strings the implementation wrote
-    ops = session_ops(ctx, case, excl)
+    ops = session_ops(ctx, fwp, excl, has_rules and model_on)
     totals = {p: b'' for p in range(4)}
     seg_ends = {p: [] for p in range(4)}
     for ob in steps:
@@ -516,7 +712,7 @@ def eval_one_session(ctx, case, excl):
     answers = yield ops
     for a in answers[:pre]:
         if a != 'ok':
-            ctx.disagree(case, {'where': 'node.preamble', 'model': a})
+            disagree(case, {'where': 'node.preamble', 'model': a})
             ctx.case(case, validated=False)
             return
     ans = answers[pre:]
@@ -534,7 +730,7 @@ def eval_one_session(ctx, case, excl):
                 break
             ops2 = ops2[:pre] + [e for e in more if e] + ops2[pre:]
         else:
-            ctx.disagree(case, {'where': 'node.oracle', 'model': 'keeps asking for pieces'})
+            disagree(case, {'where': 'node.oracle', 'model': 'keeps asking for pieces'})
             ctx.case(case, validated=False)
             return
     # ---- compare step by step
@@ -543,7 +739,7 @@ def eval_one_session(ctx, case, excl):
     optext = ops[pre:]
     for k, ((i, what, payload), a) in enumerate(zip(plan, ans)):
         if a == 'bad-op':
-            ctx.disagree(case, {'where': 'node.bad-op', 'step': i, 'op': optext[k][:400]})
+            disagree(case, {'where': 'node.bad-op', 'step': i, 'op': optext[k][:400]})
             ctx.case(case, validated=False)
             return
         by_step.setdefault(i, []).append((what, payload, a))
@@ -562,11 +758,11 @@ def eval_one_session(ctx, case, excl):
                 if er == 'WAITING':
                     if a != 'waiting':
                         ok = False
-                        ctx.disagree(case, {'where': 'node.poll', 'step': i, 'impl': 'waiting', 'model': a[:200]})
+                        disagree(case, {'where': 'node.poll', 'step': i, 'impl': 'waiting', 'model': a[:200]})
                     continue
                 if not a.startswith('done '):
                     ok = False
-                    ctx.disagree(case, {'where': 'node.poll', 'step': i, 'impl': f'done {val!r} {er!r}'[:200], 'model': a[:200]})
+                    disagree(case, {'where': 'node.poll', 'step': i, 'impl': f'done {val!r} {er!r}'[:200], 'model': a[:200]})
                     continue
                 toks = a.split()[1:]
                 vals, k = jdec_tokens(toks, 0)
@@ -580,10 +776,10 @@ def eval_one_session(ctx, case, excl):
                     same = False
                 if not same:
                     ok = False
-                    ctx.disagree(case, {'where': 'node.poll', 'step': i, 'impl': f'{val!r} {er!r}'[:200], 'model': a[:200]})
+                    disagree(case, {'where': 'node.poll', 'step': i, 'impl': f'{val!r} {er!r}'[:200], 'model': a[:200]})
                 continue
             if a == 'bad-op':
-                ctx.disagree(case, {'where': 'node.bad-op', 'step': i, 'op': what})
+                disagree(case, {'where': 'node.bad-op', 'step': i, 'op': what})
                 ctx.case(case, validated=False)
                 return
             effs = [] if a == 'nothing' else [e.strip() for e in a.split(' ; ')]
@@ -614,9 +810,14 @@ def eval_one_session(ctx, case, excl):
         if st[0] == 'send':
             _k, p, spec, nores = st
             impl_wrote = bool(ob['writes'].get(p))
-            pred_ok = World._pred(case.get('fw', {}).get(str(p), {'send': ([], [])})['send'])(make_event(spec), None)
+            pred_ok, why = pure_pred(fwp, p, 'send')(make_event(spec))
+            ctx.count('firewall_send', 'no firewall' if str(p) not in fwp else 'allowed' if pred_ok else f'rejected({why})')
             if not pred_ok and impl_wrote:
-                violations.append(('sent-despite-firewall', f'event {spec["name"]} rejected by the send firewall was written'))
+                violations.append((fw_sig('sent-despite-firewall', why),
+                                   f'event {spec["name"]}{tuple(spec["args"])!r} rejected by the send firewall of P{p} ({why}) was written'))
+            if pred_ok and not impl_wrote and str(p) in fwp:
+                violations.append(('not-sent-although-firewall-allows',
+                                   f'event {spec["name"]}{tuple(spec["args"])!r} is allowed by the send firewall of P{p}, nothing was written'))
             if impl_wrote:
                 cid = ob['writes'][p][0].get('id') if isinstance(ob['writes'][p][0], dict) else None
                 sent[(p, cid)] = spec
@@ -624,13 +825,13 @@ def eval_one_session(ctx, case, excl):
                     expected_once.setdefault(PEER[p], []).append((cid, spec))
             if bool(send_blocked) != (not impl_wrote):
                 ok = False
-                ctx.disagree(case, {'where': 'node.send', 'step': i, 'impl_wrote': impl_wrote, 'model_blocked': send_blocked})
+                disagree(case, {'where': 'node.send', 'step': i, 'impl_wrote': impl_wrote, 'model_blocked': send_blocked})
         # --- writes
         iw = {p: sorted(canon(x) for x in v) for p, v in ob['writes'].items()}
         mw = {p: sorted(canon(x) for x in v) for p, v in m_writes.items()}
         if iw != mw and not ob['dead']:
             ok = False
-            ctx.disagree(case, {'where': 'node.writes', 'step': i, 'impl': str(ob['writes'])[:300], 'model': str(m_writes)[:300]})
+            disagree(case, {'where': 'node.writes', 'step': i, 'impl': str(ob['writes'])[:300], 'model': str(m_writes)[:300]})
         # --- fires
         i_f = sorted((p, canon(cid), canon(ev)) for p, cid, ev in ob['fires'])
         m_f = []
@@ -642,13 +843,13 @@ def eval_one_session(ctx, case, excl):
             m_f.append((p, canon(cid), canon(ev)))
         if i_f != sorted(m_f) and not ob['dead']:
             ok = False
-            ctx.disagree(case, {'where': 'node.fires', 'step': i, 'impl': str(i_f)[:300], 'model': str(sorted(m_f))[:300]})
+            disagree(case, {'where': 'node.fires', 'step': i, 'impl': str(i_f)[:300], 'model': str(sorted(m_f))[:300]})
         for p, cid, ev in ob['fires']:
             dispatched.setdefault(p, []).append((cid, ev))
         # --- aborted reads
         if [bool(x) for x in ob['aborted']] != m_aborted[:len(ob['aborted'])] and not ob['dead']:
             ok = False
-            ctx.disagree(case, {'where': 'node.aborted', 'step': i, 'impl': ob['aborted'], 'model': m_aborted})
+            disagree(case, {'where': 'node.aborted', 'step': i, 'impl': ob['aborted'], 'model': m_aborted})
         # --- loop liveness (spec on impl)
         if ob['dead']:
             violations.append((f'loop-killed({classify_hostile(case, i)})',
@@ -673,18 +874,29 @@ def eval_one_session(ctx, case, excl):
         if case.get('hostile'):
             continue
         # events rejected by the receive firewall must not be dispatched, the others exactly once
-        rpred = World._pred(case.get('fw', {}).get(str(q), {'recv': ([], [])})['recv'])
+        rpred = pure_pred(fwp, q, 'recv')
         allowed, refused = [], []
         for cid, spec in exp:
-            e = make_event(spec)
-            (allowed if rpred(e, None) else refused).append(cid)
+            v, why = rpred(make_event(spec))
+            if v:
+                allowed.append(cid)
+            else:
+                refused.append((cid, why, spec))
+            ctx.count('firewall_recv', 'no firewall' if str(q) not in fwp else 'allowed' if v else f'rejected({why})')
         got_ids = [cid for cid, _ev in got]
-        for cid in refused:
+        for cid, why, spec in refused:
             if cid in got_ids:
-                violations.append(('dispatched-despite-firewall', f'call {cid} rejected by the receive firewall of P{q} was dispatched'))
+                violations.append((fw_sig('dispatched-despite-firewall', why),
+                                   f'call {cid} {spec["name"]}{tuple(spec["args"])!r} rejected by the receive firewall of P{q} '
+                                   f'({why}) was dispatched'))
+        if str(q) in fwp and exp:
+            vs = [rpred(make_event(spec))[0] for _cid, spec in exp]
+            same_key = len({(spec['name'], tuple(map(str, spec['channels']))) for _cid, spec in exp}) < len(exp)
+            ctx.count('firewall_recv_sequence', ('mixed verdicts' if len(set(vs)) > 1 else 'one verdict')
+                      + (', repeated (name, channels)' if same_key else ''))
         if complete and all(isinstance(c, int) for c in allowed + got_ids):
             spec_ops.append(f"spec-once {' '.join(map(str, allowed))} | {' '.join(map(str, got_ids))}")
-            spec_meta.append(('once', q, allowed, got_ids))
+            spec_meta.append(('once', q, allowed, got_ids, [c for c, _w, _s in refused]))
         for cid, ev in got:
             spec = dict(exp).get(cid) if all(isinstance(c, int) for c, _ in exp) else None
             if spec is None:
@@ -708,15 +920,25 @@ def eval_one_session(ctx, case, excl):
             if r == 'ok':
                 continue
             if meta[0] == 'once':
-                _t, q, allowed, got_ids = meta
+                _t, q, allowed, got_ids, refused_ids = meta
                 missing = [c for c in allowed if got_ids.count(c) == 0]
                 twice = [c for c in allowed if got_ids.count(c) > 1]
                 if twice:
                     violations.append(('executed-twice', f'calls {twice} were dispatched more than once on P{q}'))
                 if missing:
+                    # answered by the receiver without a dispatch = refused by its firewall gate, not lost on the wire
+                    answered = [c for c in missing if any(isinstance(pk, dict) and 'value' in pk and 'name' not in pk
+                                                          and pk.get('id') == c for ob in steps for pk in ob['writes'].get(q, []))]
+                    if answered and str(q) in fwp:
+                        violations.append(('refused-although-firewall-allows',
+                                           f'calls {answered} sent to P{q} are allowed by its receive firewall, but were '
+                                           f'answered with an empty result and never dispatched'))
+                    missing = [c for c in missing if c not in answered or str(q) not in fwp]
+                if missing:
                     violations.append((f'packet-dropped({classify_drop(case, steps, q, missing)})',
                                        f'calls {missing} sent to P{q} were never dispatched'))
-                if not twice and not missing:
+                # (a dispatched call the receive firewall rejects has its own signature above)
+                if not twice and not missing and any(c not in refused_ids for c in got_ids if c not in allowed):
                     violations.append(('executed-unsent', f'P{q} dispatched {got_ids}, sent were {allowed}'))
             elif meta[0] == 'same':
                 violations.append((f'roundtrip({r.split()[-1]})', f'call {meta[2]} ({meta[3]}) arrived with a different {r.split()[-1]}'))
@@ -728,8 +950,8 @@ def eval_one_session(ctx, case, excl):
             spec = sent[(p, cid)]
             q = PEER[p]
             got = [ev for c, ev in dispatched.get(q, []) if c == cid]
-            rpred = World._pred(case.get('fw', {}).get(str(q), {'recv': ([], [])})['recv'])
-            if not rpred(make_event(spec), None):
+            rejected = not pure_pred(fwp, q, 'recv')(make_event(spec))[0]
+            if rejected:
                 want = None                     # the receive firewall answers with an empty value
             elif spec['name'].startswith('boom'):
                 if state != 'done' and got:
@@ -743,6 +965,10 @@ def eval_one_session(ctx, case, excl):
             fin = [(val, er) for ob in steps for (k, status, val, er) in ob.get('done', []) if k == (p, cid) and status == 'done']
             if not fin:
                 violations.append(('wrong-result-routing(no-answer)', f'generator of call {cid} on P{p} never got an answer'))
+            elif rejected and (fin[0][0] is not None or fin[0][1] is not False):
+                violations.append(('wrong-result-routing(rejected-call-got-a-result)',
+                                   f'call {cid} on P{p} is rejected by the receive firewall of P{q}: the sender must get the '
+                                   f'empty answer, it got {fin[0]!r}'))
             elif canon(fin[0][0]) != canon(want) or fin[0][1] is not False:
                 violations.append(('wrong-result-routing(value)',
                                    f'call {cid} on P{p} got {fin[0]!r}, the handler returned {want!r}'))
@@ -755,7 +981,14 @@ def eval_one_session(ctx, case, excl):
     ctx.count('reads', min(sum(len(ob['reads']) for ob in steps), 20))
     big = any(len(seg) > 4096 for ob in steps for _q, seg in ob['reads'])
     ctx.count('read>4096', big)
-    ctx.case(strip_case(case), nontrivial=sum(len(ob['reads']) for ob in steps) > 1, validated=ok)
+    if has_rules:
+        ctx.count('firewall_rules_checked_by', 'model and oracle' if model_on else 'oracle only (driver without rules)')
+    ctx.case(strip_case(case), nontrivial=sum(len(ob['reads']) for ob in steps) > 1, validated=ok and model_on)
+
+
+def fw_sig(base, why):
+    """the plain signature for the name / channel family; the part of the predicate that rejects otherwise"""
+    return base if why in (None, 'name-or-channel') else f'{base}({why})'
 
 
 def strip_case(case):
@@ -1022,6 +1255,111 @@ def gen_fw(rng):
     return fw
 
 
+# firewalls whose verdict is not a function of (name, channels): directed sequences on one connection
+
+FW_RULES = {
+    'args': {'k': 'le', 'sel': ['a', 0], 'n': 100},
+    'kwargs': {'k': 'eq', 'sel': ['k', 'mode'], 'v': 'ro'},
+    'attribute': {'k': 'eq', 'sel': ['t', 'token'], 'v': 'sesame'},
+}
+FW_ORDERS = {'allowed-first': 'ARA', 'rejected-first': 'RAR', 'alternating': 'ARARA', 'alternating-from-rejected': 'RARAR',
+             'late-reject': 'AAAR', 'late-allow': 'RRRA'}
+FW_NTH = [(2, 0), (2, 1), (3, 0), (3, 2)]          # (n, phase): R A R A R / A R A R A / R A A R A / A A R A A
+FW_CUTS = ['none', 'after-body', 'in-delim', 'every-64', 'bytes-at-delims', 'one']
+
+
+def fw_event(kind, allowed, i, channels, name='foo'):
+    """event number i of a directed sequence: same name and channels throughout, the verdict hangs on `kind`"""
+    ev = {'name': name, 'args': [i], 'kwargs': {}, 'success': False, 'failure': False, 'notify': False,
+          'channels': list(channels), 'attrs': {}}
+    if kind == 'args':
+        ev['args'] = [(50 if allowed else 5000) + i]
+    elif kind == 'kwargs':
+        ev['kwargs'] = {'mode': 'ro'} if allowed else ({'mode': 'rw'} if i % 2 else {})
+    elif kind == 'attribute':
+        ev['attrs'] = {'token': 'sesame'} if allowed else ({'token': 'guess'} if i % 2 else {})
+    return ev
+
+
+def fw_directed_session(kind, rule, pattern, side, sender, awaited, mode, channels, label):
+    q = PEER[sender]
+    fw = {str(sender): {'send': [[], [], [rule] if side == 'send' else []], 'recv': [[], []]},
+          str(q): {'send': [[], []], 'recv': [[], [], [rule] if side == 'recv' else []]}}
+    steps = []
+    for i, c in enumerate(pattern):
+        steps.append(['send', sender, fw_event(kind, c == 'A', i, channels), False])
+        if awaited:
+            steps += [['deliver', sender, []], ['deliver', q, []]]
+    if not awaited:
+        steps += [['deliver', sender, mode], ['deliver', q, mode]]
+    return {'kind': 'session', 'tag': f'firewall-{side}-{kind}', 'label': label, 'fw': fw, 'seed': 19, 'steps': steps}
+
+
+def fw_directed_cases():
+    """every kind of dependency x send / receive firewall x both connection roles x orders of allowed / rejected
+    events of one (name, channels); each awaited one by one, and all in flight and delivered as one stream
+    (uncut: every packet in one read, or cut)"""
+    cases = []
+    k = 0
+    combos = [(kind, rule, order, pattern) for kind, rule in FW_RULES.items() for order, pattern in FW_ORDERS.items()]
+    combos += [('call-counter', {'k': 'nth', 'n': n, 'phase': phase}, f'every-{n}th-from-{phase}',
+                ''.join('R' if i % n == phase else 'A' for i in range(5))) for n, phase in FW_NTH]
+    for kind, rule, order, pattern in combos:
+        for side in ('recv', 'send'):
+            for sender in (2, 0):
+                channels = [[], ['app'], ['chan1', 'app']][k % 3]
+                mode = 'none' if k % 2 == 0 else FW_CUTS[1 + (k // 2) % (len(FW_CUTS) - 1)]
+                cases.append(fw_directed_session(kind, rule, pattern, side, sender, True, None, channels, f'{order}:{pattern}:awaited'))
+                cases.append(fw_directed_session(kind, rule, pattern, side, sender, False, mode, channels, f'{order}:{pattern}:in-flight'))
+                k += 1
+    return cases
+
+
+def fw_rich_session(rng, multi=False):
+    """random session on one connection (or two): firewalls with rules on both ends, events of few (name, channels)
+    whose arguments / keyword arguments / attributes / position decide the verdict"""
+    def rules():
+        out = []
+        for name in rng.sample(['args', 'kwargs', 'attribute', 'nth'], rng.choice([0, 1, 1, 1, 2])):
+            if name == 'nth':
+                n = rng.randint(2, 4)
+                out.append({'k': 'nth', 'n': n, 'phase': rng.randrange(n)})
+            else:
+                out.append(dict(FW_RULES[name]))
+        return out
+    links = [rng.choice([0, 2])] if not multi else [rng.choice([0, 2]), rng.choice([1, 3])]
+    fw = {}
+    for p in links:
+        for x in (p, PEER[p]):
+            fw[str(x)] = {'send': [rng.choice([[], [], ['bar']]), rng.choice([[], [], ['secret']]), rules()],
+                          'recv': [rng.choice([[], [], ['bar']]), rng.choice([[], [], ['secret']]), rules()]}
+    chans = rng.choice([[], ['app'], ['chan1', 'app']])
+    steps = []
+    seq = 0
+    for _ in range(rng.randint(3, 7)):
+        p = rng.choice(links)
+        if rng.random() < 0.25:
+            p = PEER[p]                       # traffic in the other direction of the same connection
+        seq += 1
+        ev = {'name': rng.choice(['foo', 'foo', 'foo', 'bar']), 'args': [seq if rng.random() < 0.6 else 1000 + seq],
+              'kwargs': rng.choice([{'mode': 'ro'}, {'mode': 'ro'}, {'mode': 'rw'}, {}, {'mode': 1}]),
+              'success': rng.random() < 0.2, 'failure': False, 'notify': False,
+              'channels': list(chans) if rng.random() < 0.85 else ['secret'],
+              'attrs': rng.choice([{'token': 'sesame'}, {'token': 'sesame'}, {'token': 'guess'}, {}, {'token': ['sesame']}])}
+        if rng.random() < 0.3:
+            ev['args'].append(gen_value(rng, 1))
+        steps.append(['send', p, ev, rng.random() < 0.1])
+        if rng.random() < 0.4:
+            steps.append(['deliver', p, rng.choice(CUT_MODES)])
+        if rng.random() < 0.3:
+            steps.append(['deliver', PEER[p], rng.choice(CUT_MODES)])
+    ends = [x for p in links for x in (p, PEER[p])]
+    for rnd in range(3):
+        for p in (ends if rnd % 2 == 0 else list(reversed(ends))):
+            steps.append(['deliver', p, rng.choice(CUT_MODES)])
+    return {'kind': 'session', 'tag': 'firewall-random', 'fw': fw, 'steps': steps, 'seed': rng.randint(0, 2 ** 30)}
+
+
 def cut_marks(rng, mode):
     """cut lists are symbolic: resolved against the actual byte count by `resolve_cuts`"""
     return mode
@@ -1271,6 +1609,8 @@ def session_cases(ctx, meta_keys):
     cases.append({'kind': 'session', 'tag': 'multi', 'fw': {}, 'seed': 5, 'steps': [
         ['send', 2, plain, False], ['send', 3, plain2, False], ['deliver', 2, 'none'], ['deliver', 3, 'none'],
         ['deliver', 0, 'none'], ['deliver', 1, 'none']]})
+    # firewalls that decide by arguments / keyword arguments / an attribute / a call counter (both tiers, all of them)
+    cases.extend(fw_directed_cases())
     for _ in range(60 * s):
         cases.append(legit_session(rng, s))
     for _ in range(25 * s):
@@ -1279,6 +1619,8 @@ def session_cases(ctx, meta_keys):
         cases.append(legit_session(rng, s, tag='big', big=True, fw={}))
     for _ in range(120 * s):
         cases.append(hostile_session(rng, meta_keys))
+    for i in range(30 * s):
+        cases.append(fw_rich_session(rng, multi=i % 5 == 4))
     return cases
 
 
@@ -1321,7 +1663,9 @@ def params(ctx):
 
 def run(ctx):
     ctx.rule = ('sessions: 4 real Protocol instances (2 server-mode on one manager, 2 clients), random events '
-                '(args with ~, ~~~, "value":, >4 KiB), firewalls, deliveries cut none/one/few/around every delimiter/'
+                '(args with ~, ~~~, "value":, >4 KiB), firewalls (by name / channel; directed + random: by argument, keyword '
+                'argument, attribute, every n-th event - allowed and rejected events of one (name, channels) on one '
+                'connection in both orders and alternating, awaited or in flight), deliveries cut none/one/few/around every delimiter/'
                 'inside delimiters/after bodies/every 64/every 4096 bytes; hostile: JSON mutation grammar x metadata '
                 'keys of a dispatched event; codec: every field of a call packet x type swaps (exhaustive list) + random; '
                 'split: all strings <=7 over {~,a} (exhaustive); non-trivial = more than one read / any codec case; '
@@ -1332,6 +1676,9 @@ def run(ctx):
                     'the handlers of the receiving side are abstract (value returned or exception); Manager dispatch order is '
                     "the core's (C01-C08)"]
     ctx.assumptions += ['strings with lone surrogates are not generated (the driver carries UTF-8)',
+                        'a stateful firewall (every n-th event shown to it is rejected) is judged as the function of the '
+                        'event it amounts to on a FIFO connection: the k-th call handed to send() / the k-th call packet '
+                        'that arrives; being asked twice about one event object counts once',
                         'an exception out of Manager.flush() is what ends Manager.run()']
     params(ctx)
     meta_keys = meta_key_pool()
